@@ -42,7 +42,9 @@ def gen_conf(rng, B):
     elif k < 0.40:
         lines.append('message_format = "' + ",".join("%{" + d + "}" for d in ini_gen.ALL_DS)[:900] + '"')
     else:
-        lines.append("message_format = " + rng.choice(['"%{cmdline}"', '"%{nosuch}"', '"%{failure} %{cmdline}"', '"%{cmdline"', '""', '"%{env_all}"', '"x"']))
+        lines.append("message_format = " + rng.choice(['"%{cmdline}"', '"%{nosuch}"', '"%{failure} %{cmdline}"', '"%{cmdline"', '""', '"%{env_all}"', '"x"',
+                                                        # data sources on their own error paths: result does not fit their buffer, empty result, unknown argument
+                                                        '"%{datetime:%c | %c | %c | %c | %c | %c} %{cmdline}"', '"%{datetime:%%} %{datetime:} %{cmdline}"', '"%{cgroup:nosuchcontroller} %{env:} %{cmdline}"']))
     out = rng.choice(["file:" + A, "file:" + A, "file:" + B.work + "/nodir/x", "file:/dev/full", "file:" + B.work + "/rootonly", "file:" + B.work,
                       "file:" + B.work + "/t-%{datetime:%s}-%{pid}", "socket:" + B.sock, "socket:" + B.work + "/absent", "socket:" + B.work + "/fullsock",
                       "devlog", "devtty", "devnull", "stdout", "stderr", "noop", "nosuch:x", ":", "file:", "socket:"])
@@ -77,6 +79,7 @@ def make_runs(tr, n):
         r["sigblock"] = [sg for sg in (13, 10, 17, 1) if rng.random() < 0.25]
         r["sigign"] = [sg for sg in (13, 1, 12) if rng.random() < 0.15]
         r["preerrno"] = rng.choice([0, 0, 34, 4, 2, 22])
+        r["confstate"] = rng.choice(["file"] * 8 + ["absent", "unreadable", "directory"])
     return runs
 
 
@@ -124,6 +127,12 @@ def script_fn(r, B, s):
         s.raw("sigign %d" % sg)
     s.raw("preerrno %d" % r["preerrno"])
     s.conf(conf)
+    if r["confstate"] == "absent":
+        s.raw("confrm")
+    elif r["confstate"] == "unreadable":
+        s.raw("confmode 000")
+    elif r["confstate"] == "directory":
+        s.raw("confdir")
     base = r["id"] * 1000
     c = calls[0]
     # warm-up: libc one-time caches (NSS, tz data, stdio buffers).  Two calls: one with a fixed non-empty command line (so that
@@ -183,6 +192,8 @@ def check_fn(r, evs, B):
                     B.F.violation("C16:%s-changed:%s" % (what, where), "call %d of run: %s differs %s: %s" % (k, key, where, detail[:300]), dict(wit, call=k))
         if "mtx_depth" in rl and rl["mtx_depth"] != 0:
             B.F.violation("C16:lock-held-at-real-exec", "mutex depth %d at real exec" % rl["mtx_depth"], dict(wit, call=k))
+        if "mtx_depth" in en and en["mtx_depth"] != 0:
+            B.F.violation("C16:lock-held-after-return", "the calling thread still holds the library's mutex (depth %d) after the call has returned" % en["mtx_depth"], dict(wit, call=k))
         hp = rl.get("heap")
         if hp is None:
             raise Harness("allocator monitor not loaded")
